@@ -123,7 +123,7 @@ func inv_ParseFile_target(pkg *packages.Package) {
 	vs.Invariant("nothing_handed_out", gNamesHandedOut == vs.Old(gNamesHandedOut))
 }
 
-//kvc:loop (*Parser).ParseFile "for _, f := range pkg.Syntax { if f == nil { continue } for _, decl := range f.Decls"
+//kvc:loop (*Parser).ParseFile "for _, f := range pkg.Syntax { if f == nil || f == previousOutput { continue } for _, decl := range f.Decls"
 func inv_ParseFile_reserve_files(pkg *packages.Package, varPool *VarPool) {
 	vs.Invariant("nothing_handed_out", gNamesHandedOut == vs.Old(gNamesHandedOut))
 	vs.Invariant("wf", loadedPackageWF(pkg) && poolInv(varPool))
@@ -149,7 +149,7 @@ func inv_ParseFile_reserve_names(pkg *packages.Package, f *ast.File, decl *ast.G
 		vs.Forall(len(decl.Specs), func(k int) bool { return specWF(decl.Specs[k]) }))
 }
 
-//kvc:loop (*Parser).ParseFile "for _, f := range pkg.Syntax { if f == nil { continue } for _, imp := range f.Imports"
+//kvc:loop (*Parser).ParseFile "for _, f := range pkg.Syntax { if f == nil || f == previousOutput { continue } for _, imp := range f.Imports"
 func inv_ParseFile_import_files(pkg *packages.Package, metaData *MetaData, varPool *VarPool) {
 	vs.Invariant("wf", loadedPackageWF(pkg) && metaData != nil && metaData.Imports != nil && importsNonNil(metaData.Imports) && poolInv(varPool))
 }
